@@ -136,6 +136,9 @@ class DULServiceProvider(Thread):
         pdu_cls, event = _PDU_TYPES[b[0:1]]
         pdu = pdu_cls()
         pdu.decode(b)
+        # The state machine converts the PDU to a primitive, which validates the
+        #   field values: an invalid PDU must raise here (-> Evt19), not there
+        pdu.to_primitive()
 
         evt.trigger(self.assoc, evt.EVT_PDU_RECV, {"pdu": pdu})
 
